@@ -418,6 +418,8 @@ class Interp:
         t = v.tag("truth")
         if t is not None:
             return t
+        if v.sign == "POS" and v.tag("isnum") and (v.shape is None or v.shape.rank == 0) and v.tag("kind") != "ndarray":
+            return True          # a strictly positive number is truthy
         return None
 
     def e_BoolOp(self, e):
@@ -497,7 +499,8 @@ class Interp:
                 if l.known:
                     out.const = (l.const is None) == pos
                 elif l.tag("notnone") or l.shape is not None or l.unit is not None or l.items is not None \
-                        or l.tag("kind") in ("ndarray", "int", "list", "tuple", "dict", "bool", "str", "rng", "generator") \
+                        or l.tag("kind") in ("ndarray", "int", "list", "tuple", "dict", "bool", "str", "rng", "generator", "combinations", "product", "zip",
+                                             "enumerate", "map", "qmc", "qmc_multinomial", "delaunay", "hull", "pca", "nmf", "interp", "set") \
                         or l.tag("isnum") or l.tag("cvx"):
                     out.const = not pos
             elif l.known and r.known:
@@ -956,6 +959,7 @@ class Interp:
         return BREAK
 
     def s_Continue(self, s):
+        self.emit("continue", s)
         self.fr.cont_envs.append((dict(self.fr.env), dict(self.ctx.selfenv)))
         return CONTINUE
 
@@ -990,11 +994,15 @@ class Interp:
         self.refine(s.test, True)
         st1 = self.run_body(s.body)
         env1, self1 = fr.env, self.ctx.selfenv
+        if st1 == NORMAL:
+            self.emit("branch_exit", s, env={k: v for k, v in env1.items() if v is not env0.get(k)}, arm=True)
         fr.env, self.ctx.selfenv = dict(env0), dict(self0)
         fr.guards[-1] = (txt, False, s.test, False, t.flat().data | t.flat().shp)
         self.refine(s.test, False)
         st2 = self.run_body(s.orelse)
         env2, self2 = fr.env, self.ctx.selfenv
+        if st2 == NORMAL and s.orelse:
+            self.emit("branch_exit", s, env={k: v for k, v in env2.items() if v is not env0.get(k)}, arm=False)
         fr.guards.pop()
         fr.ctrl.pop()
         n1, n2 = st1 == NORMAL, st2 == NORMAL
@@ -1153,6 +1161,7 @@ class Interp:
             fr.guards.pop()
             results.append(sth)
             if sth == NORMAL:
+                self.emit("handler_exit", h, env=dict(fr.env), caught=tuple(caught))
                 outs.append((fr.env, self.ctx.selfenv))
         if outs:
             oe, os_ = outs[0]
@@ -1298,6 +1307,7 @@ class Interp:
                     and cmp_[1].term == base.term and v.tag("extconst") == "numpy.nan":
                 nb.tags["pos_or_nan"] = True        # x[x <= 0] = nan : only positive multiples survive
                 nb.sign = "POS"
+            nb.tags.pop("raw_quotient_by", None)         # some entries were overwritten: no longer the raw quotient
             nb.term = mk_term("stored", base.term, f.term)
             if isinstance(t.value, ast.Name):
                 fr.env[t.value.id] = nb
@@ -1438,6 +1448,13 @@ class Interp:
     def iter_elem(self, it, node):
         """Abstract element of an iterable value."""
         k = it.tag("kind")
+        if k in ("combinations", "product", "zip", "enumerate", "generator", "map") and it.tag("created_loops") is not None \
+                and node is not None:
+            cur = tuple(self.fr.loops)
+            made = it.tag("created_loops")
+            extra = [l for l in cur if l not in made]
+            if extra:
+                self.emit("iterator_reuse", node, kind=k, made_in=made, loops=cur)
         if k == "generator":
             return it.tag("elem") or Val()
         if it.tag("iter_elem") is not None:
